@@ -194,8 +194,14 @@ def rule_apply(ctx):
                 if colvar:
                     r.check(not stores, inst + "/adds-nothing", loc, "the REMOVE arm changes `%s`: %s" % (colvar, [expr_str(g, s["i"]) for s in stores]))
                 else:
-                    okr = rets and all(g.nodes[x["a"][0]]["k"] == "int" and g.nodes[x["a"][0]]["v"] == 0 for x in rets)
-                    r.check(okr, inst + "/adds-nothing", loc, "the REMOVE arm does not return literal 0")
+                    # literal 0, or literal 1 on the arm that is controlled by the word/word fusion test (the exception the
+                    # property itself makes: "two words")
+                    def fusion_arm(x):
+                        cs = " ".join(expr_str(g, cn) for cn, pol in g.guard_conds(g.nblock[x["i"]]) if cn is not None and pol is True)
+                        return "IsKw2(first->GetStr()[first->Len() - 1])" in cs and "IsKw1(second->GetStr()[0])" in cs
+                    okr = rets and all(g.nodes[x["a"][0]]["k"] == "int" and (g.nodes[x["a"][0]]["v"] == 0 or (g.nodes[x["a"][0]]["v"] == 1 and fusion_arm(x))) for x in rets) \
+                        and any(g.nodes[x["a"][0]]["v"] == 0 for x in rets)
+                    r.check(okr, inst + "/adds-nothing", loc, "the REMOVE arm does not return literal 0 (or 1 under the word/word test)")
             else:
                 if fname == "space_text":
                     good = len(stores) == 1 and stores[0]["k"] == "asg" and stores[0]["op"] == "+=" and \
